@@ -570,7 +570,7 @@ func (repo *Repository) CheckHeader(ctx context.Context,
 
 	branch, height := repo.branches.Find(hash)
 	if branch != nil {
-		return height, branch == repo.longest, nil
+		return height, repo.isInLongest(hash, height), nil
 	}
 
 	// Lookup in larger map
@@ -579,6 +579,13 @@ func (repo *Repository) CheckHeader(ctx context.Context,
 	}
 
 	return -1, false, ErrUnknownHeader
+}
+
+// isInLongest returns true if the header with the specified hash and height is in the most proof
+// of work chain. That chain can span several branches, the longest branch and its ancestors.
+func (repo *Repository) isInLongest(hash bitcoin.Hash32, height int) bool {
+	at := repo.longest.AtHeight(height)
+	return at != nil && at.Hash.Equal(&hash)
 }
 
 // GetHeader returns the header with the specified hash with its block height and whether it is
@@ -595,7 +602,7 @@ func (repo *Repository) GetHeader(ctx context.Context,
 			return nil, -1, false, ErrHeaderNotAvailable
 		}
 
-		return data.Header, height, branch == repo.longest, nil
+		return data.Header, height, repo.isInLongest(hash, height), nil
 	}
 
 	// Lookup in larger map
